@@ -55,6 +55,10 @@ func crashGen(r *rand.Rand, mode string, thorough bool) dbCase {
 		var clients [][]dbOp
 		for ci := 0; ci < nclients; ci++ {
 			prog := genProgram(r, nkeys, nops/nclients+1, 10, 25)
+			if mode != "async" && ci == 0 && r.Intn(25) == 0 {
+				// a value larger than the (fixed, 4 MiB) WAL write buffer: its record reaches the file in two writes
+				prog[r.Intn(len(prog))] = dbOp{Kind: "put", Key: r.Intn(nkeys), ValLen: 4_300_000 + r.Intn(500_000)}
+			}
 			if r.Intn(4) == 0 {
 				// a value far larger than the memstore limit and the write buffers
 				prog[r.Intn(len(prog))] = dbOp{Kind: "put", Key: r.Intn(nkeys), ValLen: pick(r, 3000, 8000, 30000)}
